@@ -86,20 +86,26 @@ def spend_cases(draw):
     sel = 'auto'
     if draw(st.integers(0, 5)) == 0:
         sel = draw(st.sampled_from(['explicit-right', 'explicit-right', 'explicit-wrong', 'explicit-decoy', 'out-of-range']))
-    return dict(c=c, corr=corr, flags=flags, fclass=fclass, sel=sel)
+    # amounts written in front of the spending transaction (`--tx=<amount>[,<amount>...]:<hex>`): with --txin the amount of the debugged input is the
+    # value of the output it spends, whatever the prefix says
+    amt = None
+    if draw(st.integers(0, 4)) == 0:
+        n_in = len(c['tx'].vin)
+        amt = ','.join(draw(st.sampled_from(['0.5', '0.00000001', '0', '1', '20999999.9769', '0.12345678'])) for _ in range(draw(st.sampled_from([1, n_in, n_in]))))
+    return dict(c=c, corr=corr, flags=flags, fclass=fclass, sel=sel, amt=amt)
 
 
 def case_json(case):
     c = case['c']
     return dict(tx=c['tx'].ser().hex(), txin=c['fund'].ser().hex(), type=c['type'], corruption=case['corr'], flags=case['flags'], fclass=case['fclass'], sel=case['sel'], idx=c['idx'],
-                decoy=c.get('decoy'), spent_all=[[s['value'], s['spk'].hex()] for s in c['spent_all']], leafkind=c['meta'].get('leafkind'))
+                decoy=c.get('decoy'), spent_all=[[s['value'], s['spk'].hex()] for s in c['spent_all']], leafkind=c['meta'].get('leafkind'), amount_prefix=case.get('amt'))
 
 
 def case_from_json(j):
     tx = T.Tx.parse(bytes.fromhex(j['tx']))
     fund = T.Tx.parse(bytes.fromhex(j['txin']))
     c = dict(tx=tx, fund=fund, idx=j['idx'], type=j['type'], decoy=j.get('decoy'), spent_all=[dict(value=v, spk=bytes.fromhex(s)) for v, s in j['spent_all']], meta=dict(leafkind=j.get('leafkind')))
-    return dict(c=c, corr=j['corruption'], flags=j['flags'], fclass=j['fclass'], sel=j['sel'])
+    return dict(c=c, corr=j['corruption'], flags=j['flags'], fclass=j['fclass'], sel=j['sel'], amt=j.get('amount_prefix'))
 
 
 def matching_inputs(tx, fund):
@@ -167,7 +173,11 @@ def check_spend(case, ctx):
         exp_idx = None
     typ = c['type']
     key = repr((tx.ser(), fund.ser(), select, flags))
-    r = harness().req(kvline('spend', tx=tx.ser().hex(), txin=fund.ser().hex(), select=select, flags=flags, mode='step', trace=0))
+    txtext = tx.ser().hex()
+    if case.get('amt'):
+        txtext = case['amt'] + ':' + txtext
+        ctx.count('amount-prefix-on-tx')
+    r = harness().req(kvline('spend', tx=txtext, txin=fund.ser().hex(), select=select, flags=flags, mode='step', trace=0))
     if r.get('timeout'):
         ctx.inconclusive += 1
         return
